@@ -241,7 +241,7 @@ class Gen:
             return self.var_of(T, svar=rng.random() < 0.1)
         choices = ["app", "app"]
         if is_fun(T):
-            choices += ["abs"] * 4
+            choices += ["abs"] * 4 + ["comp"]
         if T == BOOL:
             choices += ["eq", "eq", "quant", "quant", "conn", "le"]
         if T in (NAT, INT, REAL):
@@ -254,6 +254,9 @@ class Gen:
         d = depth - 1
         if ch == "abs":
             return ["abs", T[2][0], self.term(T[2][1], d, [T[2][0]] + env)]
+        if ch == "comp":        # comp_fun :: (b => c) => (a => b) => a => c at three types
+            A, C_, B = T[2][0], T[2][1], rng.choice(self.BASE[:7])
+            return self.bin("comp_fun", fun(fun(B, C_), fun(A, B), T), self.term(fun(B, C_), d, env), self.term(fun(A, B), d, env))
         if ch == "eq":
             A = rng.choice(self.BASE)
             return self.bin("equals", fun(A, A, BOOL), self.term(A, d, env), self.term(A, d, env))
